@@ -332,6 +332,7 @@ class CallMixin:
             self.havoc_modifies(ct, env)
             # --- result
             res = None
+            ctx.now = ctx.now + 1       # whatever the callee returns or stores was allocated no later than now
             if ct.returns not in (None, "None"):
                 rty = self.ptype(ct.returns)
                 res = ctx.fresh(rty, "ret_" + ct.method_name)
